@@ -52,6 +52,7 @@ class Gate:
         self.turn = ctx.Value("i", 0)
         self.off = ctx.Value("i", 0)
         self.patience = patience
+        self.owner_pid = os.getpid()          # the process that builds the vec env (its dummy env lives there)
 
     def _order(self, k):
         return self.orders[k % len(self.orders)] if self.orders else None
@@ -154,7 +155,7 @@ class ScriptEnv(ParallelEnv):
     render_mode = None
 
     def __init__(self, env_id, n_agents=2, obs_kind="vec", act_kind="disc", length=2, end="term", leave=False,
-                 gate=None, faults=None, hang_sleep=1.5):
+                 gate=None, faults=None, hang_sleep=1.5, linger=0.0):
         self.env_id = int(env_id)
         self.n_agents = int(n_agents)
         self.obs_kind, self.act_kind = obs_kind, act_kind
@@ -165,6 +166,12 @@ class ScriptEnv(ParallelEnv):
         self.gate = gate
         self.faults = [f for f in (faults or []) if f["env"] == self.env_id]
         self.hang_sleep = hang_sleep
+        # linger > 0 (C13): a worker takes `linger` seconds to go away, both on env.close() and on SIGTERM, so that
+        # "close() returned while a worker was still alive" (missing join) is a deterministic observation, not a race
+        self.linger = float(linger)
+        self._in_worker = gate is not None and os.getpid() != gate.owner_pid
+        if self._in_worker and self.linger > 0:
+            signal.signal(signal.SIGTERM, self._on_term)
         self._count = {"reset": 0, "step": 0, "call": 0, "setattr": 0}
         self._knob = 0
         # usable before the first reset (episode 0, as if reset(seed=None) had been called)
@@ -305,8 +312,13 @@ class ScriptEnv(ParallelEnv):
             if held:
                 self.gate.leave()
 
+    def _on_term(self, signum, frame):
+        time.sleep(self.linger)
+        os._exit(143)
+
     def close(self):
-        pass
+        if self._in_worker and self.linger > 0:
+            time.sleep(self.linger)
 
     def render(self):
         return None
